@@ -220,7 +220,7 @@ pub fn check_std(h: &HdrC) -> Obs {
             let ms: Vec<(Vec<u8>, Vec<Vec<u8>>)> = m0
                 .segments
                 .iter()
-                .map(|s| (s.info_field.try_encode_to_vec().unwrap(), s.hop_fields.iter().map(|x| x.try_encode_to_vec().unwrap()).collect()))
+                .map(|s| (s.info_field.try_encode_to_vec().unwrap_or_default(), s.hop_fields.iter().map(|x| x.try_encode_to_vec().unwrap_or_default()).collect()))
                 .collect();
             if *vs != ms {
                 pvs.push(pv("Disagree:segments", format!("view iterates {} segments, model has {} (header {})", vs.len(), ms.len(), hex(&b0))));
